@@ -9,6 +9,7 @@ import (
 
 func init() {
 	vfHarnesses["C07_polygon_options"] = vfhC07PolygonOptions
+	vfHarnesses["C08_twkb_polygon_options"] = vfhC07PolygonOptions
 	vfHarnesses["C07_collection_line_x"] = vfhC07CollectionLineX
 	vfHarnesses["C07_varint"] = vfhC07Varint
 	vfHarnesses["C07_uvarint"] = vfhC07Uvarint
